@@ -1,0 +1,110 @@
+//go:build verif
+
+package database
+
+import (
+	"context"
+	"database/sql"
+	"database/sql/driver"
+	"errors"
+	"io"
+	"strings"
+	"sync"
+)
+
+// Ghost scenario support for the contracts in zz_contracts_verif.go: a database/sql driver that does nothing, so that
+// WithTxReadClosers runs against a real *sql.Tx (see /verif/DESIGN.md).
+
+type verifDriver struct{}
+
+func (verifDriver) Open(string) (driver.Conn, error) { return verifConn{}, nil }
+
+type verifConn struct{}
+
+func (verifConn) Prepare(string) (driver.Stmt, error) { return nil, errors.New("verif driver: no statements") }
+func (verifConn) Close() error                        { return nil }
+func (verifConn) Begin() (driver.Tx, error)           { return verifDriverTx{}, nil }
+
+type verifDriverTx struct{}
+
+func (verifDriverTx) Commit() error   { return nil }
+func (verifDriverTx) Rollback() error { return nil }
+
+var verifRegister sync.Once
+
+type verifDatabase struct{ db *sql.DB }
+
+func (d verifDatabase) BeginTx(ctx context.Context, opts *sql.TxOptions) (*TxController, error) {
+	tx, err := d.db.BeginTx(ctx, opts)
+	if err != nil {
+		return nil, err
+	}
+	return NewTx(tx), nil
+}
+func (d verifDatabase) PingContext(ctx context.Context) error { return nil }
+func (d verifDatabase) Close() error                          { return d.db.Close() }
+func (d verifDatabase) GetDatabaseType() DatabaseType         { return DB_TYPE_SQLITE }
+
+// verifReadersHoldTheTransaction (ghost scenario, bounded): a streaming read with 1-4 readers keeps its transaction
+// until the last reader is closed and releases it exactly once, whatever the order of reads to the end, closes and
+// repeated closes; no read or close fails because another reader was closed. ops: bit 0 chooses read-to-end or
+// close, the other bits the reader; after ops every reader still open is closed (starting at reader `first`) and then
+// every reader is closed a second time.
+func verifReadersHoldTheTransaction(n uint8, first uint8, ops []uint8) bool {
+	verifRegister.Do(func() { sql.Register("verif-noop", verifDriver{}) })
+	sdb, err := sql.Open("verif-noop", "")
+	if err != nil {
+		return false
+	}
+	defer sdb.Close()
+	nr := int(n)%4 + 1
+	released := 0
+	closed := make([]bool, nr)
+	readers, err := WithTxReadClosers(context.Background(), verifDatabase{sdb}, nil, func(ctx context.Context, tx Tx) ([]io.ReadCloser, error) {
+		tx.OnRollback(func(context.Context) error { released++; return nil })
+		rs := make([]io.ReadCloser, nr)
+		for i := range rs {
+			rs[i] = io.NopCloser(strings.NewReader("0123456789"))
+		}
+		return rs, nil
+	})
+	if err != nil || len(readers) != nr {
+		return false
+	}
+	check := func() bool {
+		want := 1
+		for _, c := range closed {
+			if !c {
+				want = 0
+			}
+		}
+		return released == want
+	}
+	do := func(i int, closeIt bool) bool {
+		if closeIt {
+			if err := readers[i].Close(); err != nil {
+				return false
+			}
+			closed[i] = true
+		} else if _, err := io.ReadAll(readers[i]); err != nil {
+			return false
+		}
+		return check()
+	}
+	for _, op := range ops {
+		if !do(int(op>>1)%nr, op&1 == 1) {
+			return false
+		}
+	}
+	for j := 0; j < nr; j++ {
+		if i := (int(first) + j) % nr; !closed[i] && !do(i, true) {
+			return false
+		}
+	}
+	for i := 0; i < nr; i++ {
+		if !do(i, true) {
+			return false
+		}
+	}
+	return released == 1
+}
